@@ -64,7 +64,7 @@ HARNESSES = {
         H("c05_regret_infoset_new", "data", "C05.K.RegretInfoset_new.uniform", bounded="1..3 actions"),
         H("c08_regret_match_positive_n1", "data", "C05.K.regret_match.distribution", bounded=B3),
         H("c08_regret_match_positive_n2", "data", "C05.K.regret_match.distribution", bounded=B3, tier="thorough", timeout=1800),
-        H("c08_regret_match_positive_n3", "data", "C05.K.regret_match.distribution", bounded=B3, tier="thorough", timeout=1800),
+        H("c08_regret_match_positive_n3", "data", "C05.K.regret_match.distribution", bounded=B3, tier="experimental", timeout=1800),
         H("c08_regret_match_fallbacks_n1", "data", "C05.K.regret_match.distribution", bounded=B3),
         H("c08_regret_match_fallbacks_n2", "data", "C05.K.regret_match.distribution", bounded=B3, tier="thorough", timeout=1800),
         H("c08_regret_match_fallbacks_n3", "data", "C05.K.regret_match.distribution", bounded=B3, tier="thorough", timeout=1800),
@@ -86,16 +86,16 @@ HARNESSES = {
         H("c08_gen_discount_special", "data", "C08.K.gen_discount.special", complete=True),
         H("c08_regret_match_positive_n1", "data", "C08.K.regret_match.positive", bounded=B3),
         H("c08_regret_match_positive_n2", "data", "C08.K.regret_match.positive", bounded=B3, tier="thorough", timeout=1800),
-        H("c08_regret_match_positive_n3", "data", "C08.K.regret_match.positive", bounded=B3, tier="thorough", timeout=1800),
+        H("c08_regret_match_positive_n3", "data", "C08.K.regret_match.positive", bounded=B3, tier="experimental", timeout=1800),
         H("c08_regret_match_fallbacks_n1", "data", "C08.K.regret_match.fallbacks", bounded=B3),
         H("c08_regret_match_fallbacks_n2", "data", "C08.K.regret_match.fallbacks", bounded=B3, tier="thorough", timeout=1800),
         H("c08_regret_match_fallbacks_n3", "data", "C08.K.regret_match.fallbacks", bounded=B3, tier="thorough", timeout=1800),
         H("c08_discount_cum_regret_n1", "data", "C08.K.discount_cum_regret", bounded=B3, tier="thorough", timeout=1800),
         H("c08_discount_cum_regret_n2", "data", "C08.K.discount_cum_regret", bounded=B3, tier="thorough", timeout=1800),
-        H("c08_discount_cum_regret_n3", "data", "C08.K.discount_cum_regret", bounded=B3, tier="thorough", timeout=1800),
-        H("c08_discount_average_strat_n1", "data", "C08.K.discount_average_strat", bounded=B3, tier="thorough", timeout=1800),
-        H("c08_discount_average_strat_n2", "data", "C08.K.discount_average_strat", bounded=B3, tier="thorough", timeout=1800),
-        H("c08_discount_average_strat_n3", "data", "C08.K.discount_average_strat", bounded=B3, tier="thorough", timeout=1800),
+        H("c08_discount_cum_regret_n3", "data", "C08.K.discount_cum_regret", bounded=B3, tier="experimental", timeout=1800),
+        H("c08_discount_average_strat_n1", "data", "C08.K.discount_average_strat", bounded=B3, tier="experimental", timeout=1800),
+        H("c08_discount_average_strat_n2", "data", "C08.K.discount_average_strat", bounded=B3, tier="experimental", timeout=1800),
+        H("c08_discount_average_strat_n3", "data", "C08.K.discount_average_strat", bounded=B3, tier="experimental", timeout=1800),
     ],
     "C06": [
         H("c06_thread_threshold_reach", "vanilla", "C06.K.thread_threshold.reach", tier="experimental", timeout=7200,
